@@ -112,7 +112,7 @@ def run_sync_client(rng, peer, discover, oids, drop=()):
 
     def body():
         sess = SnmpSession("127.0.0.1", port=agent.port, engine_id=rng.choice([None, b""]) if discover else st.engine_id,
-                           user=client_user(st), timeout=0.25 if drop else 2.0)
+                           user=client_user(st), timeout=0.6 if drop else 3.0)
         for attempt in range(len(drop) + 1):
             try:
                 sess.refresh()
@@ -140,7 +140,7 @@ def run_async_client(rng, peer, discover, oids, drop=()):
     async def main(port):
         from gufo.snmp.async_client import SnmpSession
         sess = SnmpSession("127.0.0.1", port=port, engine_id=rng.choice([None, b""]) if discover else st.engine_id,
-                           user=client_user(st), timeout=0.25 if drop else 2.0)
+                           user=client_user(st), timeout=0.6 if drop else 3.0)
         for attempt in range(len(drop) + 1):
             try:
                 await sess.refresh()
@@ -194,7 +194,7 @@ def refresh_trace(mode, peer, given, outcomes, ncalls):
             return [st.report(req["request_id"], req["msg_id"], auth=bool(st.auth_alg) and bool(req["flags"] & 1))]
         return []
     calls = []
-    kw = dict(engine_id=st.engine_id if given else None, user=client_user(st), timeout=0.12)
+    kw = dict(engine_id=st.engine_id if given else None, user=client_user(st), timeout=0.4)
     if mode == "sync":
         from gufo.snmp.sync_client import SnmpSession
         agent = e2e.ThreadAgent(lambda dg: [(0, x) for x in plan(dg)])
